@@ -60,7 +60,9 @@ def run(ctx):
     rng = ctx.rng
     d = ctx.build_repo("asan")
     probe = ctx.cc_harness("argvprobe", ["argvprobe.c"], flavour="plain")
-    root = os.path.join(ctx.scratch, "c06")
+    # the invocation root has a space and a tab-free odd name: ${builddir} and what derives from it must reach
+    # the commands whole
+    root = os.path.join(ctx.scratch, "c06 root")
     shutil.rmtree(root, ignore_errors=True)
     os.makedirs(root)
     bdir = os.path.join(root, "2024-01-01.1")
